@@ -362,6 +362,101 @@ theorem mirror_roundtrip_needs_strict :
   intro m mp
   refine ⟨by simp [m, WF], by decide⟩
 
+/-! ### Mirror round trip through a whole history (`palindrome`, defined in PM/Map.lean) -/
+
+/-- A strictly well-formed map (either orientation) round-trips with its inverse, for either
+    association side: a position that gets no recover value is brought back by the inverse map, and
+    a recover value is turned back into the position by `recover` of the inverse map. -/
+theorem roundTrips_of_strict (m : StepMap) (hwf : StrictWF 0 m.ranges) (assoc : Int) :
+    RoundTrips m assoc := by
+  intro pos
+  have hw : WF 0 m.ranges := (WF_iff _ _).2 ((StrictWF_iff _ _).1 hwf).toRWF
+  rcases locate_quad m pos with ⟨i, hi, hf, h1, h2⟩ | ⟨k, hk, hb, ha⟩
+  · have hres := map_inside m hw pos assoc i hi hf h1 h2
+    by_cases hrec : pos = (if assoc < 0 then (quad m i).oldStart else (quad m i).oldEnd)
+    · have hr : (m.mapResult pos assoc).recover = none := by
+        rw [hres]; simp only [insideResult]; rw [if_pos hrec]
+      refine ⟨fun _ => ?_, fun rv h => (by rw [hr] at h; cases h)⟩
+      have hq := invert_quad m i hi
+      by_cases hassoc : assoc < 0
+      · rw [if_pos hassoc] at hrec
+        rw [hrec, map_at_start m hwf i hi assoc hassoc]
+        have := map_at_start m.invert hwf i hi assoc hassoc
+        rw [hq] at this
+        exact this
+      · rw [if_neg hassoc] at hrec
+        rw [hrec, map_at_end m hwf i hi assoc hassoc]
+        have := map_at_end m.invert hwf i hi assoc hassoc
+        rw [hq] at this
+        exact this
+    · have hr : (m.mapResult pos assoc).recover = some (i, pos - (quad m i).oldStart) := by
+        rw [hres]; simp only [insideResult]; rw [if_neg hrec]
+      refine ⟨fun h => (by rw [hr] at h; cases h), fun rv h => ?_⟩
+      rw [hr] at h
+      cases h
+      rw [recover_spec m i _ hi]
+      congr 1
+      omega
+  · have hres := map_outside m hw pos assoc k hk hb ha
+    have hr : (m.mapResult pos assoc).recover = none := by rw [hres]
+    exact ⟨fun _ => invert_roundtrip_outside m hw pos assoc assoc k hk hb ha,
+      fun rv h => (by rw [hr] at h; cases h)⟩
+
+/-- `palindrome [m]` is the mapping of `mirror_roundtrip_one` -/
+example (m : StepMap) :
+    palindrome [m] = { maps := [m, m.invert], mirror := [1, 0], from_ := 0, to := 2 } := rfl
+
+/-- what `palindrome` builds, in closed form: the maps followed by their inverses in reverse order,
+    every position `i < 2k` mirrored with `2k − 1 − i`, the whole of it selected -/
+theorem palindrome_spec (ms : List StepMap) :
+    (palindrome ms).maps = ms ++ ms.reverse.map StepMap.invert ∧
+    (palindrome ms).from_ = 0 ∧ (palindrome ms).to = 2 * ms.length ∧
+    ∀ i, i < 2 * ms.length → (palindrome ms).getMirror i = some (2 * ms.length - 1 - i) :=
+  ⟨(palindrome_isPalindrome ms).maps, palindrome_from ms, (palindrome_isPalindrome ms).to,
+    (palindrome_isPalindrome ms).mirror⟩
+
+/-- **Mirror round trip (whole history)**: the maps of an arbitrary history followed by their
+    inverses in reverse order, each inverse registered (through `append_map`) as the mirror of the
+    map it undoes, send every position — including positions inside content deleted by any of the
+    maps — back to itself, for either association side.
+
+    Nothing is assumed about how consecutive maps fit together (no chaining hypothesis), about the
+    orientation of the maps (`inverted = true` members are covered), or about the sign of `pos`;
+    only that every single map has strictly separated ranges (necessary already for one map, see
+    `mirror_roundtrip_needs_strict`). -/
+theorem mirror_roundtrip_chain (ms : List StepMap) (h : ∀ m ∈ ms, StrictWF 0 m.ranges)
+    (pos assoc : Int) :
+    (palindrome ms).map pos assoc = some pos :=
+  palin_roundtrip (palindrome_isPalindrome ms) (palindrome_from ms) assoc
+    (fun m hm => roundTrips_of_strict m (h m hm) assoc) pos
+
+/-- the second half of the palindrome, taken as a slice, contains no complete mirror pair and is
+    the plain composition of the inverted maps, last map first (any maps, no well-formedness) -/
+theorem palindrome_slice_back (ms : List StepMap) (pos assoc : Int) :
+    ((palindrome ms).slice ms.length (some (2 * ms.length))).map pos assoc =
+      some (ms.foldr (fun m q => m.invert.map q assoc) pos) :=
+  palin_slice_back (palindrome_isPalindrome ms) assoc pos
+
+/-- non-vacuity of `mirror_roundtrip_chain`: two strictly well-formed two-range maps; position 3
+    lies strictly inside the range `2..4` deleted (replaced) by the first map and is recovered
+    through the mirror; position 5 survives the first map (→ 4) and lies strictly inside the range
+    `3..6` deleted by the second map; plain composition without mirrors loses both. -/
+example :
+    let m1 : StepMap := ⟨[(2, 2, 1), (7, 0, 3)], false⟩
+    let m2 : StepMap := ⟨[(0, 1, 1), (3, 3, 0)], false⟩
+    (∀ m ∈ [m1, m2], StrictWF 0 m.ranges) ∧
+    (m1.mapResult 3 1).deleted = true ∧
+    (m1.mapResult 5 1).deleted = false ∧ (m2.mapResult (m1.map 5 1) 1).deleted = true ∧
+    (palindrome [m1, m2]).map 3 1 = some 3 ∧ (palindrome [m1, m2]).map 3 (-1) = some 3 ∧
+    (palindrome [m1, m2]).map 5 1 = some 5 ∧ (palindrome [m1, m2]).map 5 (-1) = some 5 ∧
+    (Mapping.ofMaps [m1, m2, m2.invert, m1.invert]).map 3 1 ≠ some 3 ∧
+    (Mapping.ofMaps [m1, m2, m2.invert, m1.invert]).map 5 1 ≠ some 5 := by
+  intro m1 m2
+  refine ⟨?_, by decide⟩
+  intro m hm
+  simp only [List.mem_cons, List.not_mem_nil, or_false] at hm
+  rcases hm with rfl | rfl <;> simp [m1, m2, StrictWF]
+
 /-- non-vacuity: a concrete strictly well-formed two-range map and what the rule gives on it -/
 example : StrictWF 0 [(2, 2, 1), (6, 0, 3)] ∧
     (⟨[(2, 2, 1), (6, 0, 3)], false⟩ : StepMap).map 3 1 = 3 ∧
